@@ -30,7 +30,7 @@ IsEvent(name) == l <= Len(TraceLog) /\ TraceLog[l].ev = name /\ l' = l + 1
 
 InitS == [known |-> {0}, ann |-> [p \in Peers |-> 0], anns |-> [b \in Blocks |-> <<>>], fet |-> [b \in Blocks |-> None],
           junkA |-> [p \in Peers |-> 0], junkF |-> [p \in Peers |-> 0],
-          qd |-> [b \in Blocks |-> NoQ], qs |-> [p \in Peers |-> 0],
+          qd |-> [b \in Blocks |-> NoQ], qs |-> [p \in Peers |-> 0], fl |-> {},
           handed |-> {}, bc |-> {}, dropped |-> {}, nacc |-> [b \in Blocks |-> 0]]
 
 TReset == /\ (IsEvent("reset") \/ IsEvent("abort"))
